@@ -191,17 +191,18 @@ def execute(run, prop, shard):
 
             run.finding(f, prog, owned=own, reshrink=still, ctx={"ref": out.ref_env.get(f.backend if f.backend in out.ref_env else "pol"), "real": out.real_env.get(f.backend if f.backend in out.real_env else "pol")})
     # (f) several same-named column versions inside one subquery (labels inside, names outside)
-    n_col = 150 if run.tier == "quick" else 900
+    n_col = 240 if run.tier == "quick" else 1400
     for i in range(n_col):
         s = pipeline.case_seed(run.seed + 47, run.tier, si, i)
         try:
-            prog = gen.gen_collide(s)
+            # (g) every third program: subquery edge cases (nothing needed from the subquery, unions of subqueries, alias chains)
+            prog = gen.gen_subq_edges(s) if i % 3 == 2 else gen.gen_collide(s)
         except Exception:
             run.counters["generator_failures"] += 1
             continue
         out = runner.run_program(prog, opts={"reexport_every": 1}, be_cache=cache)
         run.case(prog)
-        run.counters["collision_programs"] += 1
+        run.counters["subquery_edge_programs" if i % 3 == 2 else "collision_programs"] += 1
         run.counters["probes_judged"] += out.probes_judged
         for f in out.findings:
             if f.kind == "harness":
@@ -229,7 +230,8 @@ def finalize(run, prop):
         "with and without alias() at 1-2 random positions; (a) accepted on SQLite => export == REF (== Polars), (b) alias() before a refused verb "
         "makes it accepted (left, right or both inputs), (c) simple-class pipelines never raise SubqueryError, (d) Polars never raises it, (e) I3, "
         "(f) overwritten columns whose older versions are used through kept references after a subquery (same name several times inside it): "
-        "export == REF, second export and second build_query identical",
+        "export == REF, second export and second build_query identical, (g) subqueries from which no column is needed, unions whose operands "
+        "are subqueries or unions, alias chains",
         pipeline.ASSUME_COMMON,
     )
 
